@@ -701,10 +701,24 @@ def independent_ok(cx, case, binary, rep, ahab=None, report_to=None, finding=Non
             s.expect(cond, case, what, obs)
         return bool(cond)
 
+    if not (rep.startswith("ok:") or rep.startswith("fail:")):
+        # not an answer of the checker at all (driver died / does not build / fault injected): no verdict, a broken correspondence
+        cx.ck.disagreement(s.name if s is not None else "tamper", case, "a report or a refusal of the independent checker",
+                           rep[:80], "the compiled independent checker gave no answer")
+        return None
     if not rep.startswith("ok:"):
         if s is not None:
             s.expect(False, case, "the independent AHAB check refuses an image exported by SPSDK", rep[:300], finding=finding)
         return False
+    try:
+        return _independent_ok(cx, case, binary, rep, ahab, s, need)
+    except (KeyError, ValueError, IndexError, struct.error) as exc:
+        cx.ck.disagreement(s.name if s is not None else "tamper", case, "a well-formed report of the independent checker", f"{type(exc).__name__}: {rep[:80]}",
+                           "the report of the compiled independent checker cannot be read")
+        return None
+
+
+def _independent_ok(cx, case, binary, rep, ahab, s, need):
     reps = parse_report(rep)
     ok = need(len(reps) == len(case["containers"]), "the independent check finds another number of containers", len(reps))
     for k, (r, cc) in enumerate(zip(reps, case["containers"])):
@@ -795,6 +809,31 @@ def authenticated_positions(case, binary, rep):
     return signed, images, hdr_unsigned, certs
 
 
+def real_authenticated_positions(case, ahab, binary):
+    """`authenticated_positions` from the layout numbers of the real (exported) object instead of the checker's report"""
+    signed, images, hdr_unsigned, certs = [], [], [], []
+    csize = 0x400 if case["ver"] == 1 else 0x4000
+    for k, (c, cc) in enumerate(zip(ahab.ahab_containers, case["containers"])):
+        base = k * csize
+        for e in c.image_array:
+            if e.image_size:
+                images.append((e.image_offset, e.image_size))
+        sb = c.signature_block
+        if cc["srk"] and sb.signature:
+            sbo = c._signature_block_offset
+            signed.append((base, sbo + sb.signature_offset))
+            signed.append((base + sbo + sb.signature_offset + 8, len(sb.signature.signature_data)))
+            if cc.get("cert") and sb._certificate_offset:
+                co = base + sbo + sb._certificate_offset
+                clen, csig = struct.unpack_from("<HxH", binary, co + 1)
+                certs.append((co, csig))
+                certs.append((co + csig + 8, clen - csig - 8))
+        elif not cc["srk"]:
+            for i in range(len(c.image_array)):
+                hdr_unsigned.append((base + 16 + 128 * i + 0x20, 64))
+    return signed, images, hdr_unsigned, certs
+
+
 def finding_for_tamper(inp, original, parsed):
     """C06-verify-reserializes: verify() checks the signature over a re-serialisation of the parsed object
     (`get_signature_data() = self._export()[:offset]`), so a corrupted byte that parse() does not keep (reserved fields,
@@ -813,11 +852,20 @@ def tamper(cx, case, info, budget, extra_picks=()):
     from spsdk.image.ahab.ahab_image import AHABImage
     s, rng = cx.s_tamper, cx.ck.rng
     binary, deks, row = info["binary"], info["deks"], info["row"]
-    rep = cx.drv.ask(check_line(case["ver"], row, binary, deks))
-    if not rep.startswith("ok:"):
+    rep = cx.drv.ask(check_line(case["ver"], row, binary, deks)) if cx.drv is not None else ""
+    if rep.startswith("fail:"):
         return
-    signed, images, hdru, certs = authenticated_positions(case, binary, rep)
-    reps = parse_report(rep)
+    pos = None
+    if rep.startswith("ok:"):
+        try:
+            pos = authenticated_positions(case, binary, rep)          # from the report of the independent (Spec-only) checker
+        except (KeyError, ValueError, IndexError, struct.error):
+            pos = None
+    if pos is None:
+        # no usable checker (does not build / died): the same positions from the layout numbers of the real object, so that the
+        # SPSDK side of the oracle (and its known findings) does not depend on the Lean side
+        pos = real_authenticated_positions(case, info["ahab"], binary)
+    signed, images, hdru, certs = pos
     pools = [("signed", signed), ("image", images), ("hashfield", hdru), ("certificate", certs)]
     picks = list(extra_picks)
     for name, ranges in pools:
@@ -867,9 +915,11 @@ def tamper(cx, case, info, budget, extra_picks=()):
         s.expect(reported, inp, "corrupting an authenticated byte is NOT reported by parse()/verify()", detail,
                  finding=None if reported else cx.finding_for_tamper(inp, binary, a if rp[0] == "ok" else None))
         # --- independent check
-        rep2 = cx.drv.ask(check_line(case["ver"], row, mod, deks))
-        ind_ok = independent_ok(cx, case, mod, rep2)
-        s.compare(inp, True, not ind_ok, "the independent check accepts a corrupted authenticated byte")
+        if cx.drv is not None:
+            rep2 = cx.drv.ask(check_line(case["ver"], row, mod, deks))
+            ind_ok = independent_ok(cx, case, mod, rep2)
+            if ind_ok is not None:
+                s.compare(inp, True, not ind_ok, "the independent check accepts a corrupted authenticated byte")
         cx.flips += 1
 
 
@@ -1217,7 +1267,12 @@ def cli_stream(cx, picks):
             independent_ok(cx, case, cli_bin, rep, None, report_to=s)
             mask = bytearray(len(cli_bin))
             if rep.startswith("ok:"):
-                for r, cc_ in zip(parse_report(rep), case["containers"]):
+                try:
+                    reps_ = parse_report(rep)
+                    [int(r["base"]) + int(r["sbo"]) + int(r["cert"]) for r in reps_]
+                except (KeyError, ValueError, IndexError):
+                    reps_ = []
+                for r, cc_ in zip(reps_, case["containers"]):
                     if "sigdata" in r:
                         so, sl = (int(x) for x in r["sigdata"].split(":"))
                         mask[so: so + sl] = b"\x01" * sl
@@ -1265,6 +1320,136 @@ def cli_stream(cx, picks):
                     again = fh.read()
             s.expect(r2[0] == 0 and again == cli_bin, (case, "reexport"),
                      "export(config written by `nxpimage ahab parse`) is not the parsed file", (r2, first_diff(again.hex(), cli_bin.hex())))
+
+
+TEMPLATE_INT_KEYS = ["load_address", "entry_point", "boot_flags", "meta_data_start_cpu_id", "meta_data_mu_cpu_id",
+                     "meta_data_start_partition_id"]
+
+
+def template_stream(cx, n_variants):
+    """Template image entries (`atf: file`, `tee: file`, `spl: file` ...): every value the configuration writes next to the
+    template key - INCLUDING 0 / False, the values that differ most from the database defaults - must be the value in the
+    exported image-array entry; every value it does not write is the database default.  The expected words are computed from
+    the configuration, the database rows and the documented bit layout; they are read back from the binary at the documented
+    offsets; and the same container written as a general `image_path` entry with the effective values must export to the
+    identical file."""
+    from spsdk.image.ahab.ahab_iae import ImageArrayEntryTemplates
+    from spsdk.image.ahab.ahab_image import AHABImage
+    from spsdk.utils.database import DatabaseManager, get_db
+    s, rng = cx.s_template, cx.ck.rng
+    simple = [c for c in ImageArrayEntryTemplates.__subclasses__() if "create_image_array_entry" not in c.__dict__]
+    fams = sorted({r["family"] for r in cx.rows.values()})
+    n = 0
+    for fam in fams:
+        row = cx.rows.get((fam, "latest"))
+        if row is None:
+            continue
+        db = get_db(fam)
+
+        def dflt(key, name, default=None):
+            try:
+                return db.get_value(DatabaseManager.AHAB, f"{key}_{name}", default=default)
+            except Exception:  # noqa: BLE001
+                return default
+        for tcls in simple:
+            key = tcls.KEY
+            if dflt(key, "load_address") is None or dflt(key, "core_id") is None:
+                continue
+            for variant in range(n_variants):
+                n += 1
+                fn = os.path.join(cx.scratch, f"t{n}.bin")
+                size = rng.choice([16, 511, 512, 1024, 2048])
+                with open(fn, "wb") as fh:
+                    fh.write(img_bytes(n, size))
+                over = {}
+                if variant == 0:                                            # every numeric default overridden by 0
+                    over = {k: 0 for k in TEMPLATE_INT_KEYS if k != "load_address"}
+                    over["is_encrypted"] = False
+                elif variant == 1:                                          # nothing overridden: the database defaults
+                    over = {}
+                else:
+                    for k in TEMPLATE_INT_KEYS:
+                        if rng.random() < 0.5:
+                            lim = {"boot_flags": 0x7FFF, "meta_data_start_cpu_id": 1023, "meta_data_mu_cpu_id": 1023,
+                                   "meta_data_start_partition_id": 255}.get(k, 2 ** 64 - 1)
+                            over[k] = rng.choice([0, 0, 1, lim, rng.randrange(lim + 1)])
+                    if rng.random() < 0.5:
+                        over["hash_type"] = rng.choice(HASHES)
+                    if rng.random() < 0.3:
+                        over["is_encrypted"] = False
+                entry = {key: fn}
+                entry.update(over)
+                inp = {"family": fam, "template": key, "size": size, "overrides": over}
+                s.note(inp, nontrivial=True, cls=f"{fam}/{key}/" + ("zeros" if variant == 0 else "defaults" if variant == 1 else "mixed"))
+                # ---- expectation: configuration value if written, else database default (entry point defaults to the load address)
+                eff = {}
+                for k in TEMPLATE_INT_KEYS:
+                    d_ = dflt(key, k, 0 if k != "load_address" else None)
+                    eff[k] = over[k] if k in over else (int(d_, 0) if isinstance(d_, str) else d_)
+                if "entry_point" not in over and dflt(key, "entry_point") is None:
+                    eff["entry_point"] = eff["load_address"]
+                eff["hash_type"] = over.get("hash_type", str(dflt(key, "hash_type", "SHA384")).lower())
+                eff["is_encrypted"] = over.get("is_encrypted", bool(dflt(key, "is_encrypted", False)))
+                core_label = dflt(key, "core_id")
+                core = next((t for t, l in row["core_ids"] if l == core_label), None)
+                ty_label = dflt(key, "image_type", "executable")
+                ty = next((t for t, l in (valid_image_types(row, core) or [[3, "executable"]]) if l == ty_label), None) if core is not None else None
+                if core is None or ty is None:
+                    s.expect(False, inp, "harness: database default core id / image type of the template not found in the chip rows", (core_label, ty_label))
+                    continue
+                cont = {"srk_set": "none", "used_srk_id": 0, "srk_revoke_mask": 0, "fuse_version": 0, "sw_version": 0}
+                cfg = {"family": fam, "revision": "latest", "target_memory": "standard", "output": "unused.bin",
+                       "containers": [{"container": dict(cont, images=[entry])}]}
+                r = pyres(AHABImage.load_from_config, cfg, [cx.scratch])
+                if not s.expect(r[0] == "ok", inp, "a template image entry with legal overrides is refused by load_from_config", r):
+                    continue
+                ahab = r[1]
+                ru = pyres(ahab.update_fields)
+                rx = pyres(ahab.export) if ru[0] == "ok" else ru
+                if not s.expect(rx[0] == "ok", inp, "an image with a template entry cannot be exported", rx):
+                    continue
+                binary = bytes(rx[1])
+                v2 = binary[0] == 2
+                off, isz, load, entry_pt, flags, meta = struct.unpack_from("<LLQQLL", binary, 0x10)
+                want_flags = (ty | core << 4 | {"sha256": 0, "sha384": 1, "sha512": 2}[eff["hash_type"]] << 8
+                              | int(eff["is_encrypted"]) << (12 if v2 else 11) | eff["boot_flags"] << 16)
+                want_meta = eff["meta_data_start_cpu_id"] | eff["meta_data_mu_cpu_id"] << 10 | eff["meta_data_start_partition_id"] << 20
+                s.expect((load, entry_pt, flags, meta) == (eff["load_address"], eff["entry_point"], want_flags, want_meta), inp,
+                         "the image-array entry of a template image does not carry the values of the configuration / the database defaults "
+                         "(load address, entry point, flag word, meta data read from the binary at 0x18/0x20/0x28/0x2C)",
+                         {"load": load, "entry": entry_pt, "flags": flags, "meta": meta},
+                         {"load": eff["load_address"], "entry": eff["entry_point"], "flags": want_flags, "meta": want_meta})
+                # ---- the same container as a general entry with the effective values
+                e0 = ahab.ahab_containers[0].image_array[0]
+                gen = {"image_path": fn, "image_offset": int(dflt(key, "image_offset", tcls.DEFAULT_OFFSET) or 0),
+                       "load_address": eff["load_address"], "entry_point": eff["entry_point"], "image_type": ty_label, "core_id": core_label,
+                       "is_encrypted": eff["is_encrypted"], "boot_flags": eff["boot_flags"],
+                       "meta_data_start_cpu_id": eff["meta_data_start_cpu_id"], "meta_data_mu_cpu_id": eff["meta_data_mu_cpu_id"],
+                       "meta_data_start_partition_id": eff["meta_data_start_partition_id"], "hash_type": eff["hash_type"],
+                       "gap_after_image": int(dflt(key, "gap_after_image", 0) or 0)}
+                if e0.image_size_alignment:
+                    gen["image_size_alignment"] = e0.image_size_alignment
+                cfg2 = {"family": fam, "revision": "latest", "target_memory": "standard", "output": "unused.bin",
+                        "containers": [{"container": dict(cont, images=[gen])}]}
+                r2 = pyres(AHABImage.load_from_config, cfg2, [cx.scratch])
+                b2 = None
+                if r2[0] == "ok" and pyres(r2[1].update_fields)[0] == "ok":
+                    rx2 = pyres(r2[1].export)
+                    b2 = bytes(rx2[1]) if rx2[0] == "ok" else None
+                s.expect(b2 == binary, inp, "a template entry and the general entry spelling out the same effective values export to different files",
+                         r2[0] if b2 is None else first_diff(b2.hex(), binary.hex()))
+                # ---- and the model exports the same file from the loaded object
+                if cx.drv is not None:
+                    case = {"family": fam, "revision": "latest", "tm": "standard", "ver": 2 if v2 else 1,
+                            "containers": [{"srk": None, "images": [{"seed": n, "size": size, "offset": 0}]}]}
+                    lines = [f"new {'v2' if v2 else 'v1'} {fam} latest standard", f"cont {ahab.ahab_containers[0].flags} 0 0",
+                             f"img {hexs(img_bytes(n, size))} {e0._image_offset if False else int(dflt(key, 'image_offset', tcls.DEFAULT_OFFSET) or 0)} "
+                             f"{eff['load_address']} {eff['entry_point']} {want_flags} {want_meta} {gen['gap_after_image']} {e0.image_size_alignment or 0}"]
+                    ans = cx.drv.batch(lines + ["export"])
+                    real_c = "ok:" + binary.hex()
+                    s.compare((inp, "model"), hashlib.sha256(real_c.encode()).hexdigest(), hashlib.sha256(ans[-1].encode()).hexdigest(),
+                              "the model, fed with the EXPECTED words of the template entry, exports another file than SPSDK")
+                    del case
 
 
 def cert_stream(cx):
@@ -1388,8 +1573,12 @@ def cert_model_compare(cx, rp, good):
     s.compare((inp, "parse"), real, got, "the certificate parser model reads another object than AhabCertificate.parse")
 
 
+SPEC_OPS = {"check"}      # `check` evaluates Spec/AhabRom.lean (hand-transcribed format) + Crypto/ only: no Model/, no Generated/
+
+
 def run(ck):
     logging.disable(logging.CRITICAL)
+    ck.spec_ops = set(SPEC_OPS)
     ck.lean_obligations(generated=["PyFuns", "AhabConsts"])
     rows_l = crosscheck_generated(ck)
     drv = ck.driver()
@@ -1436,6 +1625,12 @@ def run(ck):
     tm_["fields"] = _t.time()
     cert_stream(cx)
     tm_["cert"] = _t.time()
+    cx.s_template = ck.stream("template", "template image entries (atf, tee, spl, upower, oei_tcm, system_manager, cortex_m* apps) of every family that has "
+                              "them: all numeric defaults overridden by 0 / False, no override, random overrides (0, 1, field limits): the "
+                              "words in the binary = configuration value if written else database default; identical file from the equivalent "
+                              "general entry; model export from the expected words; non-trivial = distinct (family, template, overrides)")
+    template_stream(cx, ck.budget(4, 40))
+    tm_["template"] = _t.time()
     verify_stream(cx, ck.budget(3, 12))
     tm_["verify_range"] = _t.time()
     combos = [(r, tm) for r in rows_l for tm in TARGET_MEMS]
@@ -1481,9 +1676,11 @@ def run(ck):
     cli_stream(cx, plain_first[: n_cli // 3] + signed_pool[: n_cli - n_cli // 3])
     tm_["cli"] = _t.time()
     # ---------------- tampering
-    if drv is not None:
+    if True:
         per = ck.budget(8, 18)
-        pool = [ci for ci in infos if ci[1].get("check_ok")]
+        # (without a usable checker every exported image is a candidate; with it, the ones it accepts)
+        have_verdicts = any(ci[1].get("check_ok") is not None for ci in infos)
+        pool = [ci for ci in infos if (ci[1].get("check_ok") if have_verdicts else not f_encrypted_size_alignment(ci[0], ci[1]["row"]))]
         rng.shuffle(pool)
         pool.sort(key=lambda ci: -sum(1 for c in ci[0]["containers"] if c["srk"]))      # signed ones first
         for n_t, (case, info) in enumerate(pool[: ck.budget(28, 500)]):
@@ -1502,6 +1699,7 @@ def run(ck):
 
 def replay(ck, data):
     logging.disable(logging.CRITICAL)
+    ck.spec_ops = set(SPEC_OPS)
     ck.lean_obligations(generated=["PyFuns", "AhabConsts"])
     rows_l = crosscheck_generated(ck)
     cx = Ctx()
@@ -1523,6 +1721,9 @@ def replay(ck, data):
         verify_stream(cx, 1)
     if stream == "cert" or data.get("kind") != "concrete-failure-on-implementation":
         cert_stream(cx)
+    cx.s_template = ck.stream("template", "replay: the template stream (first variants)")
+    if stream == "template" or data.get("kind") != "concrete-failure-on-implementation":
+        template_stream(cx, 4)
     for i, c in enumerate(data.get("cases", []) + [{"input": d.get("input")} for d in data.get("disagreements", [])]):
         inp = c.get("input")
         if isinstance(inp, list) and inp and isinstance(inp[0], dict):      # (case, op, k) of a compared query
@@ -1532,5 +1733,5 @@ def replay(ck, data):
             continue
         case = json.loads(json.dumps(case), object_hook=lambda d: int(d["int"]) if set(d) == {"int"} else d)
         info = run_case(cx, case, f"r{i}")
-        if info and isinstance(inp, dict) and "flip" in inp and cx.drv is not None:
+        if info and isinstance(inp, dict) and "flip" in inp:
             tamper(cx, case, info, 6, extra_picks=[(inp.get("class", "signed"), inp["flip"][0], inp["flip"][1])])
